@@ -243,6 +243,10 @@ def balance_rule(repo, run, rid, want):
     # may clear it (a guard that compares the terminal event with the record just appended for it clears it for every later call on the same system)
     from .c03 import exits
     exits(repo, run, m, rule_id="C09.8")
+    # 'only the earliest terminal event ... stops the run': whether an event is terminal (and its direction) is read from the event function at EVERY integrate()
+    # call; a memoised reading survives `event.is_terminal = True` set after a survey run
+    from .common import memo_discipline
+    memo_discipline(repo, run, "C09.9", [DS], "the system module (event preparation)")
 
 
 
